@@ -456,8 +456,7 @@ Section Close.
   Qed.
 End Close.
 
-Theorem close_propagates_all : forall W, all_inner W = true -> forall sched,
-  let st := j_run W sched (j_init W) in
+Theorem close_propagates_all : forall W, all_inner W = true -> forall st, reachable W st ->
   (Forall (fun n => 0 <= n <= 1) (j_calls st) /\
    (1 <= j_baseB st -> j_calls st = repeat 1 (length W) /\ (W <> [] -> j_baseB st = 1)) /\
    (j_baseB st = 0 -> j_calls st = repeat 0 (length W))) /\
@@ -467,10 +466,11 @@ Theorem close_propagates_all : forall W, all_inner W = true -> forall sched,
    (y_enabled st = true -> j_remaining (j_step W st EvY) = j_remaining st - 1) /\
    0 <= j_remaining st <= 6 /\ (j_remaining st = 0 <-> j_all_done st = true)) /\
   (j_triggered st = true ->
-   let st' := j_run W j_drain st in j_all_done st' = true /\ 1 <= j_baseA st' /\ 1 <= j_baseB st').
+   j_all_done (j_run W j_drain st) = true /\ 1 <= j_baseA (j_run W j_drain st) /\ 1 <= j_baseB (j_run W j_drain st)).
 Proof.
-  intros W Hall sched st. assert (Hr : reachable W st) by (exists sched; reflexivity).
-  split; [exact (close_once W Hall st Hr)|]. split; [exact (done_closed W Hall st Hr)|].
-  split; [exact (close_not_stuck W Hall st Hr)|]. split; [exact (close_progress W Hall st Hr)|].
-  exact (close_propagates_bounded W Hall st Hr).
+  intros W Hall st Hr.
+  pose proof (close_once W Hall st Hr) as H1. pose proof (done_closed W Hall st Hr) as H2.
+  pose proof (close_not_stuck W Hall st Hr) as H3. pose proof (close_progress W Hall st Hr) as H4.
+  pose proof (close_propagates_bounded W Hall st Hr) as H5. cbv zeta in H5.
+  split; [exact H1|]. split; [exact H2|]. split; [exact H3|]. split; [exact H4|exact H5].
 Qed.
